@@ -100,6 +100,59 @@ class Analysis:
                 self.terms._pos = (bi, si)
                 dt = self.terms.call_term(x, bi) if si == "t" else self.terms.rvalue(x)
                 extra.append((dt, rel, vals))
+        # the same for a local that only ever holds literal Option/Result variants (the result of an expanded helper with
+        # `return None` / `Some(x)`): it being `Some` at a later test means the one block that builds `Some(..)` ran
+        for (d, rel, vals), (test_blk, _) in zip(out, dom_edges):
+            d0 = d
+            while d0[0] in ("ref", "deref"):
+                d0 = d0[1]
+            if d0[0] != "discr":
+                continue
+            v0 = d0[1]
+            while v0[0] in ("ref", "deref"):
+                v0 = v0[1]
+            if v0[0] != "var":
+                continue
+            l = v0[1]
+            ty = self.body.locals[l]["ty"]
+            if ty.get("k") != "adt" or self.terms.defs.partial[l]:
+                continue
+            tp = ty.get("p", "")
+            if tp.endswith("option::Option"):
+                names = {0: "None", 1: "Some"}
+            elif tp.endswith("result::Result"):
+                names = {0: "Ok", 1: "Err"}
+            else:
+                continue
+            vs = sorted(vals)
+            if rel == "in" and len(vs) == 1 and vs[0] in names:
+                want = names[vs[0]]
+            elif rel == "notin" and len(vs) == 1 and vs[0] in names:
+                want = names[1 - vs[0]]
+            else:
+                continue
+            defs = self.terms.defs.whole[l]
+            if len(defs) < 2:
+                continue
+            match, okv = [], True
+            for (bi, si, x) in defs:
+                if si == "t" or x.get("k") != "aggr" or not str(x.get("p", "")).endswith(("option::Option", "result::Result")):
+                    okv = False
+                    break
+                vn = x.get("vname")
+                if vn is None:
+                    vi = x.get("variant", x.get("v"))
+                    vn = names.get(vi) if isinstance(vi, int) else None
+                if vn is None:
+                    okv = False
+                    break
+                if vn == want:
+                    match.append(bi)
+            if not okv or len(match) != 1 or match[0] == bb:
+                continue
+            if any(self.in_loop(bi) for bi, _, _ in defs) and not self.assigned_this_iteration(test_blk, [bi for bi, _, _ in defs]):
+                continue
+            extra += self.atoms_at(match[0], _depth + 1)
         seen = set()
         res = []
         for a in out + extra:
